@@ -94,6 +94,15 @@ Lemma quoted_char_eof : is_quoted_char scan_eof = false.          (* D4: IsQuote
 Proof. reflexivity. Qed.
 Lemma quoted_special_eof : is_quoted_special scan_eof = false.
 Proof. reflexivity. Qed.
+Lemma quoted_escape_is_special : forall t, quoted_escape_ok t = is_quoted_special t.   (* the escape takes only \ and the double quote *)
+Proof. intro t. reflexivity. Qed.
+(* the scanner classifies every byte: ScanToken never fails on a byte (a failure is not a parser error: the reader would end) *)
+Lemma scanner_total : forall b, b < 256 -> tok_of_byte b <> TT_Error.
+Proof.
+  intros b Hb E.
+  assert (X : forallb (fun b => negb (tok_of_byte b =? TT_Error)) byte_range = true) by (vm_compute; reflexivity).
+  pose proof (forall_byte _ X b Hb) as Y. cbv beta in Y. rewrite E in Y. discriminate Y.
+Qed.
 Lemma atom_char_eof : is_atom_char scan_eof = false.
 Proof. reflexivity. Qed.
 Lemma astring_char_eof : is_astring_char scan_eof = false.
